@@ -55,6 +55,13 @@ def cases(tier, seed):
     return cs
 
 
+def recipe_path(work, kind):
+    """every user recipe file is called recipe.py, each in its own directory: loading by module name
+    instead of by path would hand a later cook an earlier file's function"""
+    os.makedirs(os.path.join(work, "recipes_" + kind), exist_ok=True)
+    return os.path.join(work, "recipes_" + kind, "recipe.py")
+
+
 def setup():
     pools.install()
 
@@ -238,7 +245,7 @@ def run_case(case, work, rec):
             try:
                 if kind.startswith("user"):
                     src, _ = USER_RECIPES[kind]
-                    rp = os.path.join(work, f"recipe_{kind}.py")
+                    rp = recipe_path(work, kind)
                     with open(rp, "w") as f:
                         f.write(src)
                     if as_callable:
@@ -289,7 +296,7 @@ def run_case(case, work, rec):
         ci += 1
         out = os.path.join(work, f"cliout{ci}")
         if kind.startswith("user"):
-            rp = os.path.join(work, f"recipe_{kind}.py")
+            rp = recipe_path(work, kind)
             with open(rp, "w") as f:
                 f.write(USER_RECIPES[kind][0])
             args = ["chef", path, "--recipe", rp, "--outdir", out]
